@@ -336,8 +336,12 @@ def view(op, input, *shape):
 
 @register_qbytestensor_op([torch.ops.aten.where])
 def where(op, condition, input, other):
-    if isinstance(condition, QTensor) or isinstance(other, QTensor):
+    if isinstance(condition, QTensor):
         raise NotImplementedError
+    if isinstance(other, QTensor):
+        other = other.dequantize()
+    if not isinstance(input, QBytesTensor):
+        return op(condition, input, other)
     float_data = op(condition, input.dequantize(), other)
     if input.axis is None:
         # We requantize with the input scale
